@@ -176,3 +176,10 @@ _load_producer = load
 def load(reg):      # noqa: F811
     _load_producer(reg)
     load_events(reg)
+    # firing to nobody changes nothing (nohavoc.* obligations on the four functions; used by the statistics contracts)
+    reg.contracts["EventProducer.fire_event"].havoc_only_if = \
+        "instance(event, 'Event') and has(self._listeners, asref(event, 'Event')._event_type)"
+    reg.contracts["EventProducer.fire_timed_event"].havoc_only_if = \
+        "instance(timed_event, 'TimedEvent') and has(self._listeners, asref(timed_event, 'TimedEvent')._event_type)"
+    for q in ("EventProducer.fire", "EventProducer.fire_timed"):
+        reg.contracts[q].havoc_only_if = "instance(event_type, 'EventType') and has(self._listeners, asref(event_type, 'EventType'))"
